@@ -18,9 +18,10 @@ IMPORTS = "From SS Require Import Base M_Format M_Summary.\nFrom Coq Require Imp
 KINDS = {"main": dict(imports=IMPORTS, type="scase", mismatch="smismatches", nontrivial="scount_nontrivial")}
 SHARD = 40
 RULE = ("the generated Stack trees of C18 (random depth/width <= 3, <= 4 thorough; full product of the context fields as frame "
-        "context and as child context; hidden flags everywhere incl. inside contexts) plus 4 real stacks extracted by stackscope "
+        "context and as child context; hidden flags everywhere incl. inside contexts) plus 7 real stacks extracted by stackscope "
         "(suspended generator in nested context managers with ExitStack children, suspended coroutine in async with, running thread "
-        "with and without contexts); per tree all 8 (show_contexts, show_hidden_frames, capture_locals) summaries, the 4 "
+        "with and without contexts, 8-deep await recursion, yield-from recursion, 7-deep running recursion) and trees with runs of 3..8 "
+        "identical consecutive entries (same frame repeated, in inner stacks, repeated contexts; traceback folds > 3 repeats); per tree all 8 (show_contexts, show_hidden_frames, capture_locals) summaries, the 4 "
         "as_stdlib_summary_with_contexts variants of its first frame and both format_flat variants. distinct = distinct descriptors; "
         "non-trivial = the summary with contexts differs from the plain frame series")
 CONFIG = dict(
@@ -52,6 +53,8 @@ def make_inputs(tier, seed):
     for sp in G.sep_error_specials():
         yield {"spec": sp}
     for sp in G.falsy_specials():
+        yield {"spec": sp}
+    for sp in G.repeat_specials():
         yield {"spec": sp}
     for i, c in enumerate(G.ctx_field_product()):
         if quick and (i + seed) % 6:
@@ -153,6 +156,7 @@ def extra_legs(tier, seed):
     rng = random.Random(seed * 7919 + 1919)
     from . import fmt_real
     descs = [{"real": n} for n in fmt_real.NAMES]
+    descs += [{"spec": sp} for sp in G.repeat_specials()]
     for _ in range(60 if tier == "quick" else 600):
         descs.append({"spec": G.gen_stack(rng, 3, 3)})
     viol = []
